@@ -118,9 +118,13 @@ def build_domain(d):
 def build_feature(f, parent=None, via_set=False):
     from flamapy.metamodels.fm_metamodel.models import Feature, Relation, Attribute
     from flamapy.metamodels.fm_metamodel.models.feature_model import FeatureType, Cardinality
-    feat = Feature(f["name"], parent=parent, is_abstract=f["abstract"],
-                   feature_type=FeatureType(f["type"]),
-                   feature_cardinality=Cardinality(f["cmin"], f["cmax"]))
+    if (f["cmin"], f["cmax"]) == (1, 1):
+        # the constructor's own default [1..1], as every reader leaves it for a feature without a cardinality clause
+        feat = Feature(f["name"], parent=parent, is_abstract=f["abstract"], feature_type=FeatureType(f["type"]))
+    else:
+        feat = Feature(f["name"], parent=parent, is_abstract=f["abstract"],
+                       feature_type=FeatureType(f["type"]),
+                       feature_cardinality=Cardinality(f["cmin"], f["cmax"]))
     attrs = [Attribute(a["name"], build_domain(a["domain"]), _copy(a["default"]), _copy(a["null"]))
              for a in f["attrs"]]
     if via_set and attrs:
@@ -261,6 +265,8 @@ def retarget(fm, b):
     def walk(feat, sb):
         feat.name = sb["name"]
         feat.is_abstract = sb["abstract"]
+        # the feature's own cardinality object edited in place (no other feature's may change with it)
+        feat.feature_cardinality.min, feat.feature_cardinality.max = sb["cmin"], sb["cmax"]
         for rel, rb in zip(feat.relations, sb["rels"]):
             rel.card_min, rel.card_max = rb["min"], rb["max"]
             for ch, cb in zip(rel.children, rb["children"]):
@@ -281,6 +287,8 @@ def same_shape_variant(m, rng):
     import copy
     b = copy.deepcopy(m)
     for f in spec_features(b["root"]):
+        if rng.random() < 0.5:
+            f["cmin"], f["cmax"] = rng.choice([(0, 1), (1, 3), (0, -1), (2, 2)])
         for r in f["rels"]:
             k = len(r["children"])
             if k == 1:
